@@ -13,7 +13,7 @@ Definition inl_ok (pre : str) (x : inl) (post : str) : bool :=
   | IEsc c => esc_ok pre c post
   | IImg w d => ilink_ok pre w d post
   | INest ch k h ps z => nest_ok ch k pre h ps z post
-  | ILinkT w d tl => tlink_ok pre w d tl post && (match tl with [] => false | _ => true end)
+  | ILinkT w d q tl => tlink_ok pre w d q tl post && (match tl with [] => false | _ => true end)
   | IAuto c0 sc r => auto_ok pre c0 sc r post
   end.
 
@@ -23,7 +23,7 @@ Definition inl_tok (x : inl) : tok :=
   | IEsc c => EscapeSequence [RawText [c]]
   | IImg w d => image_of w d
   | INest ch k h ps z => nest_of ch k h ps z
-  | ILinkT w d tl => tlink_of w d tl
+  | ILinkT w d q tl => tlink_of w d q tl
   | IAuto c0 sc r => auto_of (c0 :: sc ++ 58 :: r)
   end.
 
@@ -32,18 +32,18 @@ Theorem one_in_sentence types fn pre x post :
   tokenize_inner types fn (pre ++ inl_text x ++ post) = raw_if pre ++ [inl_tok x] ++ raw_if post.
 Proof.
   intros Hs Hem Ho. unfold leaf_spans in Hs. repeat rewrite andb_true_iff in Hs. destruct Hs as [[[[Hr _] Hst] He] Hau].
-  destruct x as [w|c|w d|ch k h ps z|w d tl|u0 usc ur]; cbn [inl_ok inl_text inl_tok] in *.
+  destruct x as [w|c|w d|ch k h ps z|w d q tl|u0 usc ur]; cbn [inl_ok inl_text inl_tok] in *.
   - rewrite <- !app_assoc. apply strike_in_sentence; assumption.
   - change (pre ++ [92; c] ++ post) with (pre ++ [92; c] ++ post). apply escape_in_sentence; assumption.
   - rewrite <- !app_assoc. apply image_in_sentence; assumption.
   - pose proof (nested_emphasis types fn ch k pre h ps z post Hem Ho) as T. unfold nest_text in T. rewrite <- !app_assoc in T. rewrite <- !app_assoc. exact T.
-  - apply andb_true_iff in Ho as [Ho _]. rewrite <- !app_assoc. apply titled_link_in_sentence; assumption.
+  - apply andb_true_iff in Ho as [Ho _]. rewrite <- !app_assoc. change (title_closer q) with (closer q). apply titled_link_in_sentence; assumption.
   - pose proof (autolink_in_sentence types fn pre u0 usc ur post Hau Ho) as T. rewrite <- !app_assoc. exact T.
 Qed.
 
 Lemma inl_plain pre x post : inl_ok pre x post = true -> plain_text pre = true /\ plain_text post = true.
 Proof.
-  destruct x as [w|c|w d|ch k h ps z|w d tl|u0 usc ur]; cbn [inl_ok]; intros H.
+  destruct x as [w|c|w d|ch k h ps z|w d q tl|u0 usc ur]; cbn [inl_ok]; intros H.
   - unfold strike_ok in H. repeat rewrite andb_true_iff in H. tauto.
   - unfold esc_ok in H. repeat rewrite andb_true_iff in H. tauto.
   - unfold ilink_ok in H. repeat rewrite andb_true_iff in H. tauto.
@@ -60,7 +60,7 @@ Proof.
   assert (Hr : mem c triggers_r = true) by (destruct Hc as [->| ->]; reflexivity).
   unfold mem. rewrite !existsb_app. fold (mem c pre). fold (mem c post). fold (mem c (inl_text x)).
   rewrite (plain_no c pre Ht Hpre), (plain_no c post Ht Hpost), orb_false_r. cbn [orb].
-  destruct x as [w|e|w d|ch k h ps z|w d tl|u0 usc ur]; cbn [inl_ok inl_text] in *.
+  destruct x as [w|e|w d|ch k h ps z|w d q tl|u0 usc ur]; cbn [inl_ok inl_text] in *.
   - unfold strike_ok in Ho. repeat rewrite andb_true_iff in Ho. destruct Ho as [[[_ Hw] _] _].
     unfold mem. rewrite !existsb_app. fold (mem c w). rewrite (plain_no c w Ht Hw). destruct Hc as [->| ->]; reflexivity.
   - unfold esc_ok in Ho. repeat rewrite andb_true_iff in Ho. destruct Ho as [_ He]. unfold esc_char in He. apply andb_true_iff in He as [_ He]. apply negb_true_iff in He.
@@ -77,8 +77,11 @@ Proof.
     unfold mem. rewrite !existsb_app. fold (mem c (repeat ch (S k))). fold (mem c h). fold (mem c (body ps)). fold (mem c z).
     rewrite (mem_repeat c ch) by (destruct Hch as [->| ->]; assumption).
     rewrite (plain_no c h Ht H5), (plain_no c z Ht H10), (body_no c Ht C1 C2 ps Hps). reflexivity.
-  - unfold tlink_ok, ilink_ok in Ho. repeat rewrite andb_true_iff in Ho. destruct Ho as [[[[[[[[_ Hw] _] _] Hd] _] Htl] _] _].
-    unfold mem. rewrite !existsb_app. fold (mem c w). fold (mem c d). fold (mem c tl). rewrite (plain_no c w Ht Hw), (dest_no c d Hr Hd), (plain_no c tl Ht Htl). destruct Hc as [->| ->]; reflexivity.
+  - unfold tlink_ok, ilink_ok in Ho. repeat rewrite andb_true_iff in Ho. destruct Ho as [[[[[[[[[[_ Hw] _] _] Hd] _] Htl] Hdl] _] _] _].
+    assert (Hqq : q = 34 \/ q = 39 \/ q = 40).
+    { unfold delim_ok in Hdl. repeat (apply orb_true_iff in Hdl; destruct Hdl as [Hdl|Hdl]); apply Z.eqb_eq in Hdl; tauto. }
+    unfold mem. rewrite !existsb_app. fold (mem c w). fold (mem c d). fold (mem c tl). rewrite (plain_no c w Ht Hw), (dest_no c d Hr Hd), (plain_no c tl Ht Htl).
+    destruct Hqq as [->|[->| ->]]; destruct Hc as [->| ->]; reflexivity.
   - unfold auto_ok in Ho. repeat rewrite andb_true_iff in Ho. destruct Ho as [[[[[[[_ _] H3] H4] H5] H6] _] H8]. apply Nat.leb_le in H5, H6.
     pose proof (url_plain [] u0 usc ur H3 H4 (conj H5 H6) H8) as Hu.
     unfold mem. rewrite !existsb_app. fold (mem c (u0 :: usc ++ 58 :: ur)). rewrite (plain_no c _ Ht Hu). destruct Hc as [->| ->]; reflexivity.
